@@ -24,7 +24,8 @@ class Ctx:
         t0 = time.time()
         self.prop = prop
         self.tier = tier
-        self.facts = F.load()
+        # thorough: do not trust the cache -- extract into a fresh target directory
+        self.facts = F.load(fresh=(tier == "thorough"))
         from . import absint
         for en, vs in self.facts.enums.items():
             absint.ENUM_NAMES[en] = [v[0] for v in vs]
@@ -67,8 +68,9 @@ def main():
             print("replaying rule=%s instance=%s (re-evaluating the whole property on the current tree)" % (
                 v.get("rule"), v.get("instance")))
         mod.run(ctx)
-        if a.tier == "thorough" and hasattr(mod, "thorough"):
-            mod.thorough(ctx)
+        if a.tier == "thorough":
+            from . import thorough
+            thorough.run(ctx, mod)
         expl = getattr(mod, "EXPLANATION", mod.__doc__ or "")
         ctx.check.level = getattr(mod, "LEVEL", "other")
         rc = ctx.check.finish(ctx.facts, explanation=expl)
